@@ -74,6 +74,23 @@ def eval_case(case):
         bs = {'t': 'ed25519'} if keys[0] == 'ssh-ed25519' else {'t': 'ed448'}
         hostkeys[keys[0]] = bs
         truth[keys[0]] = {'blob': fakenet.blob_from_spec(bs), 'size': None, 'ca': None}
+    elif kind == 'twocerts':
+        # an RSA certificate and an Ed25519 certificate signed by different CAs
+        c1, t1, s1 = ca_spec(case['ca_rsa_cert'])
+        c2, t2, s2 = ca_spec(case['ca_ed_cert'])
+        b1 = {'t': 'cert', 'kind': RSA_CERTS[0], 'bits': case['bits'], 'ca': c1}
+        b2 = {'t': 'cert', 'kind': ED_CERT, 'ca': c2}
+        for k in RSA_CERTS:
+            hostkeys[k] = b1
+        hostkeys[ED_CERT] = b2
+        hostkeys['ssh-ed25519'] = {'t': 'ed25519'}
+        for k in keys:
+            if k in RSA_CERTS:
+                truth[k] = {'blob': fakenet.blob_from_spec(b1), 'size': case['bits'], 'ca': (t1, s1), 'rsa_host': True, 'plain': False}
+            elif k == ED_CERT:
+                truth[k] = {'blob': fakenet.blob_from_spec(b2), 'size': 256, 'ca': (t2, s2), 'rsa_host': False, 'plain': False}
+            else:
+                truth[k] = {'blob': fakenet.blob_from_spec(hostkeys[k]), 'size': None, 'ca': None, 'rsa_host': False, 'plain': True}
     elif kind == 'mixed':
         # several kinds of host key on one server: every key is rated by its own blob only
         cspec, ca_type, ca_size = ca_spec(case['ca'])
@@ -146,10 +163,10 @@ def eval_case(case):
             # rating by size (RSA host keys and RSA CAs)
             small, w2k, ec = size_notes(g['notes'])
             want_small, want_w2k = [], False
-            is_rsa_host = kind == 'rsa' or (kind == 'cert' and case['inner'] == 'rsa') or (kind == 'mixed' and t.get('rsa_host'))
+            is_rsa_host = kind == 'rsa' or (kind == 'cert' and case['inner'] == 'rsa') or (kind in ('mixed', 'twocerts') and t.get('rsa_host'))
             if is_rsa_host:
                 if t['size'] < 2048:
-                    want_small.append(('fail', 'hostkey' if (kind == 'cert' or (kind == 'mixed' and not t.get('plain'))) else '', t['size']))
+                    want_small.append(('fail', 'hostkey' if (kind == 'cert' or (kind in ('mixed', 'twocerts') and not t.get('plain'))) else '', t['size']))
                 elif t['size'] < 3072:
                     want_w2k = True
             if t['ca'] is not None and t['ca'][0] == 'ssh-rsa':
@@ -188,7 +205,7 @@ def eval_case(case):
         elif kind == 'ed':
             sha, md5 = wire.fingerprints(truth[keys[0]]['blob'])
             want_fps = [(keys[0], 'SHA256', sha[7:]), (keys[0], 'MD5', md5[4:])]
-        if kind == 'mixed':
+        if kind in ('mixed', 'twocerts'):
             seen_rsa = False
             for k in keys:
                 if not truth[k].get('plain'):
@@ -259,6 +276,13 @@ def run(ctx):
         ctx.rng.shuffle(mixed)
         mixed = mixed[:250]
     cases += mixed
+    rsa_cas = [{'t': 'rsa', 'bits': b} for b in (1024, 2048, 3072)]
+    ec_cas = [{'t': 'ed25519'}, {'t': 'ecdsa', 'curve': 'nistp256'}, {'t': 'ecdsa', 'curve': 'nistp384'}]
+    for a in rsa_cas + ec_cas:
+        for b in rsa_cas + ec_cas:
+            for bits in (2048, 4096):
+                for keys in ([RSA_CERTS[0], ED_CERT], [ED_CERT, RSA_CERTS[2], 'ssh-ed25519'], [RSA_CERTS[1], RSA_CERTS[0], ED_CERT]):
+                    cases.append({'kind': 'twocerts', 'keys': keys, 'bits': bits, 'ca_rsa_cert': a, 'ca_ed_cert': b})
     ctx.map(cases)
     ctx.exhaustive = not q
     ctx.note(rsa_size_grid=len(sizes), explanation='exhaustive flag (thorough): the whole size grid 512..16384 step 64 plus every multiple of 8 within 128 bits of 2048 and 3072')
